@@ -52,8 +52,9 @@ META = {
             "local defined before `vR = hK(e, a1 - 1)` and used after it; besides that only straight-line assignments to fresh "
             "locals, calls to other helpers allowed; entry fuel (e) % 3, depth <= 3; a quarter of the recursive helpers instead assign the "
             "pre-call local in both arms of an if/else and have unrestricted bodies: a missing line inside a recursive helper "
-            "that assigns some local on more than one line gets the signature suffix |recursion-multi-def = known finding "
-            "recursion-frame-blind-local-uses)}, rendered one statement per "
+            "that assigns some local on more than one line gets the signature suffix |recursion-multi-def, a missing line "
+            "inside a helper that such a recursive helper calls (transitively) gets |recursion-multi-def-callee = known findings "
+            "recursion-frame-blind-local-uses / recursion-reentrant-return-line)}, rendered one statement per "
             "line, + two int arguments of "
             "`var_0 = sut.f(a0, a1)`; mode statement (criterion = store of var_0) or assertion (`assert var_0 == value` sliced as well). "
             "Oracles per case: (1) every checked line was executed (sys.monitoring, instruction-level upper bracket, import included); "
@@ -425,6 +426,46 @@ def multi_def_recursive_ranges(model: dict[str, Any], lay: dict[str, Any]) -> li
     return out
 
 
+def multi_def_callee_ranges(model: dict[str, Any], lay: dict[str, Any]) -> list[list[int]]:
+    """[first line, last line] of every *other* helper that a multi-def recursive helper calls (transitively): the
+    frame-blind use tracking drops the defining instance of the outer frame, and with it the calls that instance makes."""
+    multi = multi_def_recursive_ranges(model, lay)
+    starts = {r[0] for r in multi}
+
+    def callees(node: Any, acc: set[int]) -> None:
+        if isinstance(node, list):
+            if node and node[0] in ("call", "rcall", "self") and isinstance(node[1], int):
+                acc.add(node[1])
+            for x in node:
+                callees(x, acc)
+
+    graph = []
+    for h in model["helpers"]:
+        acc: set[int] = set()
+        callees(h["body"], acc)
+        callees(h["ret"], acc)
+        graph.append(acc)
+    todo = [i for i, fn in enumerate(lay["helpers"]) if fn["def_line"] in starts]
+    seen = set(todo)
+    while todo:
+        for j in graph[todo.pop()]:
+            if j not in seen:
+                seen.add(j)
+                todo.append(j)
+
+    def last_line(stmts: list[dict[str, Any]]) -> int:
+        last = 0
+        for st_ in stmts:
+            last = max(last, st_["line"], st_.get("inc", 0))
+            for key in ("then", "else", "body"):
+                if key in st_:
+                    last = max(last, last_line(st_[key]))
+        return last
+
+    return [[lay["helpers"][i]["def_line"], last_line(lay["helpers"][i]["body"])] for i in sorted(seen)
+            if lay["helpers"][i]["def_line"] not in starts]
+
+
 class HarnessError(RuntimeError):
     """Model, renderer, interpreter and CPython disagree — a bug of this check, never a verdict."""
 
@@ -505,6 +546,7 @@ def _child(case: dict[str, Any]) -> dict[str, Any]:
         res: dict[str, Any] = {"oracle": {k: oracle[k] for k in ("value", "deps", "executed", "stats", "instances")},
                                "first_missing": {}, "hi": truth["hi"], "n_lines": lay["n_lines"], "fails": [],
                                "multi_def_ranges": multi_def_recursive_ranges(model, lay),
+                               "multi_def_callee_ranges": multi_def_callee_ranges(model, lay),
                                "body_lines": sorted(l for l, k in oracle["kinds"].items()
                                                     if k not in ("class", "def", "global"))}
 
@@ -708,6 +750,9 @@ def _analyse(case: dict[str, Any], res: dict[str, Any], out: Outcome) -> None:
         # known finding recursion-frame-blind-local-uses: uses are keyed by (name, code object), so the use of an outer
         # frame is resolved (and removed) by a definition in an inner frame of the same recursive function
         suffix = "|recursion-multi-def" if any(lo <= line <= hi_ for lo, hi_ in res.get("multi_def_ranges", [])) else ""
+        if not suffix and any(lo <= line <= hi_ for lo, hi_ in res.get("multi_def_callee_ranges", [])):
+            # same root cause seen through a callee: the dropped instance of the outer frame made this call
+            suffix = "|recursion-multi-def-callee"
         out.fail(f"unsound|{where}{typ}|{kind}{suffix}",
                  f"line {line} ({kind}) is a {typ} dependence of the returned value but not in the checked lines of "
                  f"{sorted(whats)}; oracle={sorted(deps)} checked={res['checked']}\ncase={case}")
